@@ -285,8 +285,79 @@ func donchianIntProp[T helper.Integer](name string, top int64) engine.AnyProp {
 	}
 }
 
+// IntBars is an integer OHLC series: level and daily range drawn on a logarithmic scale (cents of a
+// penny stock up to the smallest unit of an index), so that products of two price-sized numbers
+// sweep across the width of the type.
+type IntBars[T helper.Integer] struct {
+	Period int `json:"period"`
+	High   []T `json:"high"`
+	Low    []T `json:"low"`
+	Close  []T `json:"close"`
+}
+
+func accelIntProp[T helper.Integer](name string, bits int) engine.AnyProp {
+	return engine.Prop[IntBars[T]]{
+		ID: "C15", Subject: "AccelerationBands/" + name,
+		Gen: func(t *rapid.T) IntBars[T] {
+			c := IntBars[T]{Period: rapid.IntRange(1, 5).Draw(t, "period")}
+			n := rapid.IntRange(0, 20).Draw(t, "n")
+			// level up to 2^(bits-5): sums of 5 highs still fit; range a fraction 2^-k of the level
+			level := int64(1) << rapid.IntRange(3, bits-5).Draw(t, "level_log2")
+			level += rapid.Int64Range(0, level-1).Draw(t, "level")
+			rng := level >> rapid.IntRange(1, 16).Draw(t, "range_log2")
+			if rng < 1 {
+				rng = 1
+			}
+			rng += rapid.Int64Range(0, rng).Draw(t, "range")
+			for i := 0; i < n; i++ {
+				lo := level + rapid.Int64Range(-rng/8, rng/8).Draw(t, "drift")
+				r := rng + rapid.Int64Range(-rng/8, rng/8).Draw(t, "r")
+				hi := lo + r
+				cl := lo + rapid.Int64Range(0, r).Draw(t, "c")
+				c.High, c.Low, c.Close = append(c.High, T(hi)), append(c.Low, T(lo)), append(c.Close, T(cl))
+			}
+			return c
+		},
+		Check: func(c IntBars[T]) engine.Outcome {
+			var o engine.Outcome
+			res := pipe.Run([][]T{c.High, c.Low, c.Close}, pipe.Opts{}, func(cs []<-chan T) []<-chan T {
+				a := volatility.NewAccelerationBands[T]()
+				a.Period = c.Period
+				u, m, l := a.Compute(cs[0], cs[1], cs[2])
+				return []<-chan T{u, m, l}
+			})
+			if !res.OK() {
+				o.Failf("AccelerationBands[%s](%d): %s: %s", name, c.Period, res.Verdict, res.Detail)
+				return o
+			}
+			for k := range res.Outs[0] {
+				u, m, l := res.Outs[0][k], res.Outs[1][k], res.Outs[2][k]
+				if !(u >= m && m >= l) {
+					o.Failf("AccelerationBands[%s](%d) over highs %v lows %v closes %v: at value #%d upper %v, middle %v, lower %v are not ordered upper >= middle >= lower", name, c.Period, c.High, c.Low, c.Close, k, u, m, l)
+					return o
+				}
+			}
+			o.NonTrivial = len(res.Outs[0]) >= 2
+			if len(c.High) > 0 {
+				o.Class(fmt.Sprintf("4*high*range~2^%d", bitsLen(4*int64(c.High[0])*int64(c.High[0]-c.Low[0]))))
+			}
+			o.Key = fmt.Sprint(c.Period, c.High, c.Low, c.Close)
+			return o
+		},
+	}
+}
+
+func bitsLen(v int64) int {
+	n := 0
+	for u := uint64(v); u > 0; u >>= 1 {
+		n++
+	}
+	return n
+}
+
 func props() []engine.AnyProp {
 	var ps []engine.AnyProp
+	ps = append(ps, accelIntProp[int32]("int32", 32), accelIntProp[int64]("int64", 64), accelIntProp[int]("int", 64))
 	ps = append(ps, donchianIntProp[int]("int", 1<<40), donchianIntProp[int64]("int64", 1<<40), donchianIntProp[int32]("int32", 1<<29), donchianIntProp[int16]("int16", 1<<13))
 	for _, c := range claims {
 		ps = append(ps, prop(c))
